@@ -25,7 +25,7 @@ const (
 	hCompact
 	hPutFlush // put immediately followed by a flush (one step, to reach deep table arrangements with short programs)
 	hDelFlush // delete immediately followed by a flush
-	hRetire // close, remove the (fully flushed) log files like WAL retention would, reopen: reads must come from SSTables
+	hRetire   // close, remove the (fully flushed) log files like WAL retention would, reopen: reads must come from SSTables
 	hNumOps
 )
 
